@@ -38,6 +38,21 @@ ConformsBatch(e) ==
 MonAInward(e) ==
   LET r == RefOf(e.p, e.ref) d == Dev(r, e.k) IN
   e.some => (PMax(e.q) <= r + d /\ PMin(e.q) >= r - d)
+(* the statement about the adjuster itself: any price produced by clamping lies within ref +- dev, with
+   min <= max.  Made exact: the clamped bounds are rounded INWARD to the granularity of the price, so the
+   claim presupposes that the band contains a representable value of each bound (otherwise the inward
+   roundings cross and the result is rejected later, see MonAAccepted); min <= max presupposes one common
+   multiplier (different multipliers are rejected by SmallPrices::from_price). *)
+BandHasGrid(p, r, d) ==
+  /\ r - d >= 0
+  /\ CeilDivP(r - d, Pow10(p.minm)) * Pow10(p.minm) <= r + d
+  /\ ((r + d) \div Pow10(p.maxm)) * Pow10(p.maxm) >= r - d
+MonABand(e) ==
+  LET r == RefOf(e.p, e.ref) d == Dev(r, e.k) IN
+  (e.some /\ BandHasGrid(e.p, r, d)) =>
+     /\ r - d <= PMin(e.q) /\ PMin(e.q) <= r + d
+     /\ r - d <= PMax(e.q) /\ PMax(e.q) <= r + d
+     /\ e.q.minm = e.q.maxm => PMin(e.q) <= PMax(e.q)
 (* nothing adjusted => the original price is what is judged next *)
 MonANoneKeeps(e) == ~e.some => e.q = e.p
 (* never accepted out of band or inverted *)
